@@ -39,6 +39,7 @@ void shim_user_fd_forget(int fd);
 extern int shim_inject_write_eagain;    /* next library write() on a pipe fails with EAGAIN */
 extern int shim_inject_epoll_errno;     /* next epoll_wait returns -1 with this errno */
 extern int shim_regex_live;             /* regcomp() successes minus regfree() calls since shim_reset() */
+extern int shim_inject_timerfd_fail;     /* next timerfd_create fails with EMFILE */
 extern int shim_inject_ctl_del;         /* next EPOLL_CTL_DEL is reported as failed (ENOENT) */
 extern int shim_epoll_calls, shim_epoll_blocking_calls;
 /* environment turn: called from a BLOCKING epoll_wait (timeout != 0) when nothing is ready.
